@@ -96,6 +96,23 @@ def rotateNode (m : Option (MeshVal (List s))) (attr : Option String) (q : quate
 def scaleNode (m : MeshVal (List s)) (attr : Option String) (origin : Option (V3 s)) (a : V3 s) :=
   m.scaleAbout (attr.getD "Position") (origin.getD V3.Zero) a
 
+/-- `VertexColorSpace(m, attr, transformation)` (vertex_color_space.go:40): component-wise `g0` = `colors.SRGBToLinear`
+    for transformation 0, `g1` = `colors.LinearToSRGB` for 1 (parameters: they call `math.Pow`); any OTHER value of the
+    enum selects no case of the `switch`, so the freshly made array stays all-zero and is stored. -/
+def vertexColorSpace (g0 g1 : s → s) (m : MeshVal (List s)) (name : String) (mode : Nat) :=
+  m.mapAttr ⟨3, name⟩ (liftV3 fun v =>
+    match mode with
+    | 0 => ⟨g0 v.x, g0 v.y, g0 v.z⟩
+    | 1 => ⟨g1 v.x, g1 v.y, g1 v.z⟩
+    | _ => V3.Zero)
+
+/-- `VertexColorSpaceTransformer.Transform`: a missing attribute is an error unless `SkipOnMissingAttribute`, in which
+    case the mesh is returned as it is -/
+def vertexColorSpaceT (g0 g1 : s → s) (m : MeshVal (List s)) (name : String) (skip : Bool) (mode : Nat) :
+    Option (MeshVal (List s)) :=
+  if m.hasAttr ⟨3, name⟩ then m.vertexColorSpace g0 g1 name mode
+  else if skip then some m else none
+
 /-- The contract of `CropFloat3Attribute` at the vertex level, whatever the incoming index buffer is:
     a point cloud with the input's materials; the surviving vertices are exactly those whose value of attribute `k`
     is `inside`, in their original order, every attribute array carried along (`keepAt` with ONE flag list); the
